@@ -40,8 +40,9 @@ fn sources_combine_as_documented() {
     for (f, a) in [(false, false), (true, false), (false, true), (true, true)] {
         let d = Config::default();
         let mut c = Config::default();
-        if f { c.merge_file(file_all()); }
-        if a { c.merge_args(args_all()); }
+        // as main.rs does: the file form (possibly empty) and the command line (possibly silent) are ALWAYS merged, in this order
+        c.merge_file(if f { file_all() } else { ConfigFile::default() });
+        c.merge_args(if a { args_all() } else { Args::default() });
         let mut chk = |name: &str, ok: bool| { if !ok { failing.push(format!("{} (file given: {}, command line given: {})", name, f, a)); } };
         chk("device_type", c.device_type == pick(a, f, Type::Tun, Type::Tap, d.device_type));
         chk("device_name", c.device_name == pick(a, f, s("adev"), s("fdev"), d.device_name.clone()));
